@@ -4,6 +4,7 @@ package memsym
 
 import (
 	"sort"
+	"strconv"
 	"time"
 
 	"github.com/openziti/storage/ast"
@@ -71,11 +72,28 @@ func (r *Row) EvalBool(name string) *bool {
 }
 
 func (r *Row) EvalString(name string) *string {
+	// like the bolt row cursor, a Symbols implementation renders non-string values when asked for a string
+	// (only map elements of type any reach this with a non-string value)
+	var out string
 	switch v := r.value(name).(type) {
 	case string:
-		return &v
+		out = v
+	case int64:
+		out = strconv.FormatInt(v, 10)
+	case float64:
+		out = strconv.FormatFloat(v, 'f', -1, 64)
+	case bool:
+		out = strconv.FormatBool(v)
+	case time.Time:
+		b, err := v.MarshalText()
+		if err != nil {
+			return nil
+		}
+		out = string(b)
+	default:
+		return nil
 	}
-	return nil
+	return &out
 }
 
 func (r *Row) EvalInt64(name string) *int64 {
